@@ -38,7 +38,11 @@ type recorder struct {
 	fired   bool
 	seen    int
 	total   int // every boundary since the start of the process (armed or not)
+	open    int // database calls (Read / Write) and store calls in progress
 }
+
+func (r *recorder) enter() { r.mu.Lock(); r.open++; r.mu.Unlock() }
+func (r *recorder) leave() { r.mu.Lock(); r.open--; r.total++; r.mu.Unlock() }
 
 // boundary is called BEFORE a step is performed.
 func (r *recorder) boundary(what string) error {
@@ -180,6 +184,8 @@ func (c *dbClient) Init(ctx context.Context, g imap.UIDValidityGenerator) error 
 func (c *dbClient) Close() error                                              { return c.inner.Close() }
 
 func (c *dbClient) Read(ctx context.Context, op func(context.Context, db.ReadOnly) error) error {
+	c.rec.enter()
+	defer c.rec.leave()
 	if err := c.rec.boundary("begin-r"); err != nil {
 		return err
 	}
@@ -192,6 +198,8 @@ func (c *dbClient) Read(ctx context.Context, op func(context.Context, db.ReadOnl
 }
 
 func (c *dbClient) Write(ctx context.Context, op func(context.Context, db.Transaction) error) error {
+	c.rec.enter()
+	defer c.rec.leave()
 	if err := c.rec.boundary("begin-w"); err != nil {
 		return err
 	}
@@ -246,6 +254,8 @@ type storeWrap struct {
 }
 
 func (s *storeWrap) Get(id imap.InternalMessageID) ([]byte, error) {
+	s.rec.enter()
+	defer s.rec.leave()
 	if err := s.rec.boundary("store.Get"); err != nil {
 		return nil, err
 	}
@@ -255,6 +265,8 @@ func (s *storeWrap) Get(id imap.InternalMessageID) ([]byte, error) {
 }
 
 func (s *storeWrap) Set(id imap.InternalMessageID, r io.Reader) error {
+	s.rec.enter()
+	defer s.rec.leave()
 	if err := s.rec.boundary("store.Set"); err != nil {
 		return err
 	}
@@ -264,6 +276,8 @@ func (s *storeWrap) Set(id imap.InternalMessageID, r io.Reader) error {
 }
 
 func (s *storeWrap) Delete(idl ...imap.InternalMessageID) error {
+	s.rec.enter()
+	defer s.rec.leave()
 	// WriteControlledStore.Delete calls this once per id; each call is one step
 	if err := s.rec.boundary("store.Delete"); err != nil {
 		return err
@@ -280,6 +294,8 @@ func (s *storeWrap) Delete(idl ...imap.InternalMessageID) error {
 func (s *storeWrap) Close() error { return s.inner.Close() }
 
 func (s *storeWrap) List() ([]imap.InternalMessageID, error) {
+	s.rec.enter()
+	defer s.rec.leave()
 	if err := s.rec.boundary("store.List"); err != nil {
 		return nil, err
 	}
